@@ -16,6 +16,7 @@ import (
 	"runtime"
 	"strconv"
 	"strings"
+	"syscall"
 	"time"
 )
 
@@ -100,6 +101,17 @@ func setupWork() {
 			base = "/dev/shm"
 		} else {
 			base = "/var/tmp"
+		}
+	}
+	// work directories of earlier runs that were killed (their process is gone) are removed
+	if olds, _ := filepath.Glob(filepath.Join(base, "ddpsim-*")); len(olds) > 0 {
+		for _, o := range olds {
+			var pid int
+			if _, err := fmt.Sscanf(filepath.Base(o), "ddpsim-%d", &pid); err == nil && pid > 0 {
+				if err := syscall.Kill(pid, 0); err == syscall.ESRCH {
+					os.RemoveAll(o)
+				}
+			}
 		}
 	}
 	workRoot = filepath.Join(base, fmt.Sprintf("ddpsim-%d", os.Getpid()))
